@@ -203,6 +203,11 @@ func TestC28(t *testing.T) {
 		// (1) round trip through every formatter
 		s := a.String()
 		c28Judge(r, "roundtrip-string", s)
+		r.Guard("codec.StringToAddress", c28Case{Class: "roundtrip-string", Input: s}, func() {
+			if back, err := codec.StringToAddress(s); err != nil || back != a {
+				r.Violation("C28/roundtrip-mismatch", c28Case{Class: "roundtrip-string", Input: s}, "address %x formats to %q which parses to (%x,%v)", a[:], s, back[:], err)
+			}
+		})
 		mt, _ := a.MarshalText()
 		c28Judge(r, "roundtrip-marshaltext", string(mt))
 		if js, err := json.Marshal(a); err == nil {
@@ -278,7 +283,8 @@ func TestC28(t *testing.T) {
 			r.Distinct("dup", p)
 		case 2: // non-hex character
 			p := rng.IntN(len(body))
-			bad := "gGzxX -_.:/\x00\n"[rng.IntN(14)]
+			const junk = "gGzxX -_.:/\x00\n"
+			bad := junk[rng.IntN(len(junk))]
 			c28Judge(r, "non-hex-char", "0x"+body[:p]+string(bad)+body[p+1:])
 			r.Distinct("nonhex", p, bad)
 		case 3: // whitespace around
